@@ -165,9 +165,14 @@ fn build_chunks(cs: &[(Option<(u16, bool)>, Vec<u8>)]) -> Vec<u8> {
 
 /// A datagram of a random kind carrying `token` (None = no token), with "tempting" field values
 /// (`seq` = the sequence number the receiver waits for).
-fn crafted(rng: &mut Rng, token: Option<[u8; 4]>, seq: u16) -> Vec<u8> {
+fn crafted(rng: &mut Rng, token: Option<[u8; 4]>, seq: u16, ackh: u16) -> Vec<u8> {
     let token = token.map(px::Token);
-    let ack = if rng.chance(1, 2) { 0 } else { rng.below(1024) as u16 };
+    // "tempting" ack: the sequence number of the victim's newest unacknowledged chunk
+    let ack = match rng.below(4) {
+        0 => 0,
+        1 => rng.below(1024) as u16,
+        _ => ackh,
+    };
     let reason: Vec<u8> = (0..rng.below(6)).map(|_| 1 + rng.below(255) as u8).collect();
     let chunk_payload;
     let type_ = match rng.below(8) {
@@ -208,6 +213,7 @@ fn wire_token(e: &Ep) -> Option<[u8; 4]> {
 fn foreign(g: &mut Gen, to: usize) -> Vec<u8> {
     let agreed = wire_token(&g.w.eps[to]);
     let seq = ((g.w.eps[to].del_vital.len() + 1) % 1024) as u16;
+    let ackh = (g.w.eps[to].sub_vital.len() % 1024) as u16;
     let mode = g.rng.below(10);
     let genuine: Option<Vec<u8>> = {
         let h = &g.w.eps[1 - to].hist;
@@ -235,7 +241,7 @@ fn foreign(g: &mut Gen, to: usize) -> Vec<u8> {
                 (_, 3) => Some([0xff; 4]),
                 _ => Some([g.rng.next() as u8, g.rng.next() as u8, g.rng.next() as u8, g.rng.next() as u8]),
             };
-            crafted(&mut g.rng, tok, seq)
+            crafted(&mut g.rng, tok, seq, ackh)
         }
         5 | 6 => match genuine {
             // genuine datagram of the peer with one bit of its last four bytes flipped (the token
@@ -251,7 +257,7 @@ fn foreign(g: &mut Gen, to: usize) -> Vec<u8> {
                 }
                 b
             }
-            _ => crafted(&mut g.rng, None, seq),
+            _ => crafted(&mut g.rng, None, seq, ackh),
         },
         7 => {
             // connless and oversized
